@@ -492,6 +492,64 @@ def kwlevel_factory(quick, seed):
     return h, judge
 
 
+def ruletypes_factory(quick, seed):
+    """Rules may return any value of the right space in any representation: a lower-precision array next to a float64 one, a NumPy or Python scalar, an
+    int for a float argument, a 0-d array - the sum over the differentiated arguments must still be the float64-accurate sum of the rule results."""
+    L = lib()
+    ag, np, ext = L["ag"], L["np"], L["ext"]
+    REPR = {
+        "f64": lambda a: onp.asarray(a, dtype=onp.float64), "f32": lambda a: onp.asarray(a).astype(onp.float32), "f16-exact": lambda a: onp.asarray(a).astype(onp.float16),
+        "npscalar-or-array": lambda a: onp.float64(a) if onp.ndim(a) == 0 else onp.asarray(a), "pyfloat-or-array": lambda a: float(a) if onp.ndim(a) == 0 else onp.asarray(a),
+        "0d-or-array": lambda a: onp.asarray(a),
+    }
+
+    def h(ch):
+        mode = ch.choose("mode", ["fwd", "rev"])
+        shape = ch.choose("shape", [(), (3,)])
+        # one rule returns an EXACTLY representable result in a possibly lower precision (g/2), the other a float64 result that lower precisions cannot hold (g/3)
+        low_slot = ch.choose("low_precision_slot", [0, 1])
+        rl = ch.choose("repr_exact_rule", sorted(REPR))
+        rh = ch.choose("repr_float64_rule", ["f64", "npscalar-or-array", "pyfloat-or-array", "0d-or-array"])
+        r0, r1 = (rl, rh) if low_slot == 0 else (rh, rl)
+        if rh == "pyfloat-or-array" and rl in ("f32", "f16-exact") and not shape:
+            raise Skip("a Python float is weakly typed (NEP 50): float32 + Python float is float32 in NumPy itself")
+        order = ch.choose("argument_order", ["xy", "yx"])
+        # values chosen so that the lower-precision representations are EXACT (powers of two): any loss comes from the accumulation, not the rule
+        v = onp.array([1.0, -2.0, 0.5]) if shape else onp.array(2.0)
+        x0 = onp.array([0.3, 0.9, -1.4]) if shape else onp.array(0.7)
+
+        c0, c1 = (0.5, 1.0 / 3.0) if low_slot == 0 else (1.0 / 3.0, 0.5)
+
+        @ext.primitive
+        def blend(a, b):
+            return c0 * a + c1 * b
+        if mode == "fwd":
+            ext.defjvp(blend, lambda g, ans, a, b: REPR[r0](c0 * g), lambda g, ans, a, b: REPR[r1](c1 * g))
+        else:
+            ext.defvjp(blend, lambda ans, a, b: lambda g: REPR[r0](c0 * g), lambda ans, a, b: lambda g: REPR[r1](c1 * g))
+        f = (lambda x: blend(x, x)) if order == "xy" else (lambda x: blend(x * 1.0, x))
+        want = c0 * v + c1 * v
+        with warnings.catch_warnings():
+            warnings.simplefilter("ignore")
+            try:
+                got = ag.make_jvp(f)(x0)(v)[1] if mode == "fwd" else ag.make_vjp(f)(x0)[0](v)
+                got = onp.asarray(got, dtype=onp.float64)
+            except Exception as e:
+                got = "%s: %s" % (type(e).__name__, str(e)[:100])
+        return mode, shape, r0, r1, order, got, want
+
+    def judge(ch, o):
+        mode, shape, r0, r1, order, got, want = o
+        feats = dict(mode=mode, rank=len(shape), repr0=r0, repr1=r1, order=order)
+        ok = not isinstance(got, str) and got.shape == want.shape and onp.allclose(got, want, rtol=4e-16, atol=0)
+        v = None if ok else violation(PROP, "ruletypes", "-", mode, "raised" if isinstance(got, str) else "wrong-value", feats, ch.choices, dict(feats),
+                                      got if isinstance(got, str) else got.tolist(), want.tolist(),
+                                      "# blend(a, b) = a/2 + b/3 with rules returning %s / %s results, differentiated w.r.t. both arguments at once (%s)" % (r0, r1, mode))
+        return dict(v=v, nontrivial=r0 != r1, outcome=(mode, r0, r1), counts={}, sample=dict(choices=list(ch.choices), **feats))
+
+    return h, judge
+
+
 def checkpoint_factory(quick, seed):
     L = lib()
     ag, np = L["ag"], L["np"]
@@ -566,12 +624,12 @@ def checkpoint_factory(quick, seed):
     return h, judge
 
 
-HARNESSES = {"contract": contract_factory, "linear": linear_factory, "checkpoint": checkpoint_factory, "deprecated": deprecated_factory, "rereg": rereg_factory, "kwlevel": kwlevel_factory}
+HARNESSES = {"contract": contract_factory, "linear": linear_factory, "checkpoint": checkpoint_factory, "deprecated": deprecated_factory, "rereg": rereg_factory, "kwlevel": kwlevel_factory, "ruletypes": ruletypes_factory}
 
 
 def run(ctx):
     rep = Report("exploration")
-    run_harnesses(ctx, rep, __name__, ["contract", "linear", "checkpoint", "deprecated", "rereg", "kwlevel"], depth=4)
+    run_harnesses(ctx, rep, __name__, ["contract", "linear", "checkpoint", "deprecated", "rereg", "kwlevel", "ruletypes"], depth=4)
     rep.add(rule="contract: (arity, registered subset, mode, registration API, differentiated positions incl. unregistered ones, trace level per "
                  "argument, kwargs); checkpoint: (program, point, wrapping); non-trivial = several differentiated arguments or two trace levels / >=2 ops")
     rep.assumptions = ["arity <= %d; programs n <= %d over sin/*/+; orders 1..3" % ((3, 3) if ctx.quick else (5, 4)),
